@@ -16,7 +16,8 @@ PROP_FILE = 'props/C11.v'
 
 PARTS = ['a', 'x + y', '= b', '\\leq c', '+ d', 'e.', '= f,', 'g \\text{ for } h',
          '\\alpha_i', '\\quad z', 'k \\nonumber', 'm \\label{l}', '= n. \\nonumber',
-         '\\mbox{if } p', 'q;\\,', '\\frac{r}{s}:']
+         '\\mbox{if } p', 'q;\\,', '\\frac{r}{s}:', 't.\\quad\\quad', 'u,\\,\\,', 'v;~\\ ',
+         'w: \\; \\;']
 
 
 def equ_envs():
@@ -107,7 +108,7 @@ def _run_own(tier, seed, build, res):
                         'equation (%d..%d)' % (ch, q, a0 + 1, b0))
         final = None
         flat = ' '.join(PARTS[i] for row in shape for i in row)
-        m = re.search(r'([.,;:])\s*(\\nonumber|\\label\{l\}|\\,)?\s*$', flat)
+        m = re.search(r'([.,;:])(?:\s|\\nonumber|\\label\{l\}|\\,|\\quad|\\;|~|\\ )*$', flat)
         if m:
             final = m.group(1)
         if seqs:
